@@ -972,6 +972,47 @@ theorem rdata_fold_table_is_rfc6840 :
       (∀ t ∈ SdnsVerif.Gen.C14.rdata_fold_any, t ∈ SdnsVerif.Gen.C14.rdata_name_types) ∧
       47 ∈ SdnsVerif.Gen.C14.rdata_name_types := by decide
 
+/-! ## VerifyRRSIGWithWork: the work governor -/
+
+/-- **Bounded work.** Under a governor with a budget of `g.budget` public-key
+operations, `VerifyRRSIGWithWork` begins at most that many — whatever the
+message, the keys and the signatures are. -/
+theorem work_never_exceeds_budget (cv : VKey → VSig → List VRec → Verdict) (inPeriod : VSig → Bool) (supAlg : Nat → Bool)
+    (tagOf : VKey → Nat) (keys : List VKey) (g : Gov) (zone : Bytes) (m : VMsg) :
+    (verifyRRSIGWork cv inPeriod supAlg tagOf keys g zone m).2 ≤ g.budget :=
+  verifyRRSIGWork_budget cv inPeriod supAlg tagOf keys g zone m
+
+/-- **A governor only refuses; it never changes a verdict.** If the walk under
+governor `g` ends without a work error, then under every governor that allows
+at least as much (more candidates per signature, more operations per RRset, a
+larger budget — in particular under none at all) it ends in exactly the same
+way: same verdict, same number of operations. So a budget can turn an
+acceptance or a rejection into a work error, never a rejection into an
+acceptance. -/
+theorem governor_only_refuses (cv : VKey → VSig → List VRec → Verdict) (inPeriod : VSig → Bool) (supAlg : Nat → Bool)
+    (tagOf : VKey → Nat) (keys : List VKey) (g g' : Gov) (hle : govLe g g') (zone : Bytes) (m : VMsg)
+    (h : (verifyRRSIGWork cv inPeriod supAlg tagOf keys g zone m).1 ≠ WRes.work) :
+    verifyRRSIGWork cv inPeriod supAlg tagOf keys g' zone m = verifyRRSIGWork cv inPeriod supAlg tagOf keys g zone m :=
+  verifyRRSIGWork_mono cv inPeriod supAlg tagOf keys g g' hle zone m h
+
+theorem budget_never_turns_rejection_into_acceptance (cv : VKey → VSig → List VRec → Verdict) (inPeriod : VSig → Bool)
+    (supAlg : Nat → Bool) (tagOf : VKey → Nat) (keys : List VKey) (g g' : Gov) (hle : govLe g g') (zone : Bytes) (m : VMsg)
+    (h : (verifyRRSIGWork cv inPeriod supAlg tagOf keys g zone m).1 = WRes.ok) :
+    (verifyRRSIGWork cv inPeriod supAlg tagOf keys g' zone m).1 = WRes.ok := by
+  rw [verifyRRSIGWork_mono cv inPeriod supAlg tagOf keys g g' hle zone m (by rw [h]; simp), h]
+
+-- one RRset, two candidate keys with the signature's tag, the second verifies: a budget of one operation
+-- refuses, a budget of two accepts after two operations
+example :
+    let k1 : VKey := ⟨256, 3, 15, 1, [46], [1]⟩
+    let k2 : VKey := ⟨256, 3, 15, 1, [46], [2]⟩
+    let s : VSig := ⟨1, 15, 1, 60, 2, 1, 9, 1, [46], [97, 46], [7]⟩
+    let r : VRec := ⟨[97, 46], 1, 1, [[97]], [1, 2, 3, 4], []⟩
+    let cv := fun (k : VKey) (_ : VSig) (_ : List VRec) => if k.pk == [2] then Verdict.ok else Verdict.badSig
+    verifyRRSIGWork cv (fun _ => true) (fun _ => true) (fun _ => 9) [k1, k2] ⟨9, 9, 1⟩ [46] ⟨[r], [], [s]⟩ = (WRes.work, 1) ∧
+    verifyRRSIGWork cv (fun _ => true) (fun _ => true) (fun _ => 9) [k1, k2] ⟨9, 9, 2⟩ [46] ⟨[r], [], [s]⟩ = (WRes.ok, 2) := by
+  decide
+
 /-! ## facts regenerated from the tree (one-directional side conditions) -/
 
 /-- the decode chunk is whole base64 groups and decodes to an even number of
